@@ -23,7 +23,6 @@ impl SecureChannel {
     #[verifier::external_body]
     pub fn decoding_options(&self) -> (r: DecodingOptions) ensures r == self.decoding_options { unimplemented!() }
 }
-pub struct MessageChunkHeader { pub is_final: MessageIsFinalType }
 pub struct ChunkInfo { pub message_header: MessageChunkHeader, pub body_offset: usize, pub body_length: usize }
 pub struct MessageChunk { pub data: Vec<u8> }
 // (is_final, body offset) of a chunk, or None when its headers do not decode: functions of its bytes
@@ -188,7 +187,7 @@ def build(manifest):
     f = splice_at(f, r'^\s*let mut data = Cursor::new\(data\);', '        proof { assert(chunks@.subrange(0, chunks@.len() as int) =~= chunks@); }', before=True)
     a = Asm()
     a.add('use vstd::prelude::*;\nverus! {\nglobal size_of usize == 8;\n', 'prelude', 'env')
-    a.add(norm_vis(mc.enum('MessageIsFinalType')), 'types', 'env')
+    a.add(norm_vis('\n'.join([mc.enum('MessageChunkType'), mc.enum('MessageIsFinalType'), mc.struct('MessageChunkHeader')])), 'types', 'env')
     a.add('pub struct Chunker;\n' + ENV, 'env', 'env')
     a.add('impl Chunker {')
     a.add(f, 'decode', 'fn')
